@@ -346,6 +346,8 @@ def render_module(st, mod, stub=False) -> str:
         out += render_use(st, mod, u)
     for dep in func_level:
         out += ["def fl_%s() -> None:" % dep.replace(".", "_"), "    import %s as loc" % dep, "    loc.__name__ + 1"]
+    for _b in range(m.get("bulk") or 0):
+        out.append("1 + ''")
     if m.get("all") is not None:
         out.append("__all__ = [%s]" % ", ".join(repr(n) for n in m["all"] if n in m["exports"] and not m["exports"][n].get("hidden")))
     if m["broken"]:
@@ -521,6 +523,11 @@ def apply_edit(st, op) -> bool:
         u.pop("sig", None)
         u["other"] = op["other"]
         m["uses"].append(u)
+    elif kind == "remove_missing_import":
+        m["missing"] = []
+    elif kind == "toggle_bulk_errors":
+        # more diagnostics than mypy's many-errors threshold (200) in one module
+        m["bulk"] = 0 if m.get("bulk") else int(op.get("n", 210))
     elif kind == "add_missing_import":
         m.setdefault("missing", [])
         if op.get("name", "zz_missing") not in m["missing"]:
